@@ -168,13 +168,24 @@ def _var_noise(var, scale):
         return np.nan_to_num(2.0 * np.sqrt(var) * d + d * d)
 
 
+def _nf(x):
+    """Overflowed quantities: an iteration that diverges beyond the floating-point range ends in inf
+    in one evaluation order and in nan in another (inf - inf, inf * 0); both mean "not a number any
+    more" and compare as equal (false alarm met in the thorough tier: a cis-only run on counts of
+    2e7 whose per-chromosome scale reached 1e245, DESIGN 7.4)."""
+    x = np.array(x, dtype=float, copy=True)
+    x[~np.isfinite(x)] = np.nan
+    return x
+
+
 def _var_close(a, b, scale, rtol=1e-6):
-    a = np.asarray(a, dtype=float)
-    b = np.asarray(b, dtype=float)
+    a = _nf(a)
+    b = _nf(b)
     if a.shape != b.shape or not np.array_equal(np.isnan(a), np.isnan(b)):
         return False
     a0, b0 = np.nan_to_num(a), np.nan_to_num(b)
-    return bool(np.all(np.abs(a0 - b0) <= rtol * np.abs(b0) + 1e-18 + _var_noise(b0, scale)))
+    with np.errstate(all="ignore"):
+        return bool(np.all(np.abs(a0 - b0) <= rtol * np.abs(b0) + 1e-18 + _var_noise(b0, scale)))
 
 
 def _kw(opts):
@@ -346,11 +357,23 @@ def _op_balance(self, op):
         ref_mask = np.isnan(ref_bias)
         if (~ref_mask).any():
             self.stat("balance-reference-finite")
+        # An iteration that DIVERGES beyond the floating-point range (per-chromosome scale 1e127 ..
+        # 1e245, variance 1e255 / inf: a cis-only run on counts of 2e7 over a two-bin chromosome)
+        # amplifies every rounding difference without bound, so "the same up to floating-point
+        # summation order" says nothing there: such operations are counted and not compared
+        # (false alarm met in the thorough tier, DESIGN 7.4). Pools, schedules and deadlock/flock
+        # checks still run.
+        with np.errstate(all="ignore"):
+            _sc = np.abs(np.asarray(ref_stats["scale"], dtype=float))
+            _vr = np.abs(np.asarray(ref_stats["var"], dtype=float))
+            diverged = bool(np.any(np.isinf(_sc) | (_sc > 1e100)) or np.any(np.isinf(_vr) | (_vr > 1e150)))
+        if diverged:
+            self.stat("balance-diverged-not-compared")
         # ---- second clause: the dense reference
-        if not opts.get("skip_dense"):
+        if not opts.get("skip_dense") and not diverged:
             try:
                 d_bias, d_scale, d_var = dense_reference(coll, dict(opts))
-                ok = _close(ref_bias, d_bias) and _close(ref_stats["scale"], d_scale) and \
+                ok = _close(ref_bias, d_bias) and _close(_nf(ref_stats["scale"]), _nf(d_scale)) and \
                     (_close(ref_stats["var"], d_var, 1e-6) or _var_close(ref_stats["var"], d_var, ref_stats["scale"]) or
                      np.allclose(np.nan_to_num(np.asarray(ref_stats["var"], dtype=float)),
                                  np.nan_to_num(np.asarray(d_var, dtype=float)), rtol=1e-6, atol=1e-18))
@@ -359,9 +382,10 @@ def _op_balance(self, op):
                     tagd = " [ignore_diags=0 with a non-zero main diagonal]" if (not opts.get("ignore_diags") and has_diag) else ""
                     nd = int(np.nanargmax(np.abs(np.nan_to_num(ref_bias) - np.nan_to_num(d_bias)))) if len(ref_bias) else -1
                     errs.append(("O-dense", "weights differ from iterative correction on the dense matrix%s: "
-                                 "bin %d got %r want %r; scale %r vs %r" % (
+                                 "bin %d got %r want %r; scale %r vs %r; var %r vs %r" % (
                                      tagd, nd, float(ref_bias[nd]) if nd >= 0 else None,
-                                     float(d_bias[nd]) if nd >= 0 else None, ref_stats["scale"], d_scale)))
+                                     float(d_bias[nd]) if nd >= 0 else None, ref_stats["scale"], d_scale,
+                                     ref_stats["var"], d_var)))
                 else:
                     self.stat("dense-reference-agrees")
             except Exception as e:
@@ -390,6 +414,8 @@ def _op_balance(self, op):
                 self.stat("balance-faulted-run-completed")
             self.stat("balance-configs")
             self.stat("balance-map:" + cfg["map"])
+            if diverged:
+                continue
             if len(vars_) != len(ref_vars):
                 # different iteration count: legitimate only on a knife edge var ~ tol
                 kdiv = min(len(vars_), len(ref_vars)) - 1
@@ -413,8 +439,8 @@ def _op_balance(self, op):
                     k, float(bias[k]), float(ref_bias[k]))))
                 continue
             for key in ("scale", "var"):
-                a = np.asarray(stats[key], dtype=float)
-                b = np.asarray(ref_stats[key], dtype=float)
+                a = _nf(stats[key])
+                b = _nf(ref_stats[key])
                 if key == "var" and _var_close(a, b, ref_stats["scale"]):
                     continue
                 if not (_close(a, b, 1e-6) or np.allclose(np.nan_to_num(a), np.nan_to_num(b), rtol=1e-6, atol=1e-18)):
